@@ -319,29 +319,17 @@ func checkContribution(c *Check, rule, key string, fn *ssa.Function, at ssa.Inst
 		c.Bad(rule, key, "dependency digests are not collected in a full range over the dependencies", c.P.InstrPos(at))
 		return
 	}
-	var bodyEntry *ssa.BasicBlock
-	for _, s := range lp.Header.Succs {
-		if lp.Body[s] {
-			bodyEntry = s
+	reach := lp.IterationCanSkip(engine.IsInstr(at), engine.CutEdgesWhere(func(a engine.Atom) bool {
+		if a.Op != "false" {
+			return false
 		}
-	}
-	toHeader := func(in ssa.Instruction) bool {
-		return in.Block() == lp.Header && in == lp.Header.Instrs[0]
-	}
-	reach, _ := engine.PathExists(fn, firstInstrBefore(bodyEntry), toHeader, engine.PathQuery{
-		CutInstr: engine.IsInstr(at),
-		CutEdge: engine.CutEdgesWhere(func(a engine.Atom) bool {
-			if a.Op != "false" {
-				return false
-			}
-			ex, ok := a.V.(*ssa.Extract)
-			if !ok || ex.Index != 1 {
-				return false
-			}
-			ta, ok := ex.Tuple.(*ssa.TypeAssert)
-			return ok && engine.TypeKey(ta.X.Type()) == "model.BuildNode"
-		}),
-	})
+		ex, ok := a.V.(*ssa.Extract)
+		if !ok || ex.Index != 1 {
+			return false
+		}
+		ta, ok := ex.Tuple.(*ssa.TypeAssert)
+		return ok && engine.TypeKey(ta.X.Type()) == "model.BuildNode"
+	}))
 	c.Require(!reach, rule, key, "within the dependency loop the digest is recorded on every iteration except for non-target nodes", "some target dependencies are skipped when the dependency digests are collected (conditional `continue`): a change in such a dependency would not invalidate the dependant", c.P.InstrPos(at))
 }
 
